@@ -1,4 +1,5 @@
 import OrsoVerif.Model.GroupBy
+import OrsoVerif.Model.GroupByX
 import OrsoVerif.Model.GroupByIR
 import OrsoVerif.Generated.GroupByCode
 /-!
@@ -42,6 +43,8 @@ structure Program where
   body : List (List Guard × Action)
   aggs : List (String × AExpr)
   labels : List (List LabelPart)
+  /-- the value written into a result row under a label -/
+  cell : CellExpr
   aggEmptyHeader : Bool
   groupsEmptyHeader : Bool
   iterMaterialises : Bool
@@ -63,6 +66,7 @@ def source : Program :=
     body := Gen.GroupByCode.collectBody
     aggs := Gen.GroupByCode.aggregators
     labels := Gen.GroupByCode.labelFormats
+    cell := Gen.GroupByCode.resultCell
     aggEmptyHeader := Gen.GroupByCode.aggregateEmptyHeader
     groupsEmptyHeader := Gen.GroupByCode.groupsEmptyHeader
     iterMaterialises := Gen.GroupByCode.iterMaterialises
@@ -162,6 +166,8 @@ def holds : Guard → Option Int → Bool
   | .truthy, none => false
   | .falsy, some x => x == 0
   | .falsy, none => true
+  | .isNaN, _ => false  -- no integer (and not `None`) differs from itself
+  | .notNaN, _ => true
 
 def guardsHold (gs : List Guard) (v : Option Int) : Bool := gs.all (holds · v)
 
@@ -184,6 +190,45 @@ def bodyOk (body : List (List Guard × Action)) : Bool :=
 /-- `_map` yields every triple, whatever its value. -/
 def yieldOk (gs : List Guard) : Bool :=
   guardsHold gs none && guardsHold gs (some 0) && guardsHold gs (some 1)
+
+/-! ### the same tests on the values of a float column (`Model/GroupByX.lean`)
+
+A float column can hold a NaN, and a test can tell it from every other value (`value != value`,
+`math.isnan(value)`).  The statement folds the group's *non-null* values and a NaN is not a null, so
+the collection loop must append a NaN (and an infinity, and a zero) exactly once as well. -/
+
+def holdsX : Guard → Option XVal → Bool
+  | .notNone, v => v.isSome
+  | .isNone, v => v.isNone
+  | .truthy, some (.fin i) => i != 0
+  | .truthy, some _ => true  -- NaN and the infinities are truthy
+  | .truthy, none => false
+  | .falsy, some (.fin i) => i == 0
+  | .falsy, some _ => false
+  | .falsy, none => true
+  | .isNaN, some .nan => true
+  | .isNaN, _ => false
+  | .notNaN, some .nan => false
+  | .notNaN, _ => true
+
+def guardsHoldX (gs : List Guard) (v : Option XVal) : Bool := gs.all (holdsX · v)
+
+/-- The actions of a loop body that run for a float value `v` (or a null), in order. -/
+def effectX (body : List (List Guard × Action)) (v : Option XVal) : List Action :=
+  (body.filter fun ga => guardsHoldX ga.1 v).map (·.2)
+
+/-- The kinds of float value the tests can tell apart: zero, another finite number, the two
+infinities, NaN. -/
+def xKinds : List XVal := [.fin 0, .fin 1, .pinf, .ninf, .nan]
+
+/-- On a null the loop registers the group and appends nothing; on every kind of float value —
+NaN included — it appends exactly once. -/
+def bodyOkX (body : List (List Guard × Action)) : Bool :=
+  (effectX body none != []) && (effectX body none).all (· == .touch)
+  && xKinds.all fun v => ((effectX body (some v)).filter isAppend).length == 1
+
+/-- `_map` yields every triple, whatever float its value is. -/
+def yieldOkX (gs : List Guard) : Bool := guardsHoldX gs none && xKinds.all fun v => guardsHoldX gs (some v)
 
 section Core
 variable {ρ κ ι : Type} [DecidableEq κ] [DecidableEq ι]
@@ -358,6 +403,12 @@ def labelC (fmt : List LabelPart) (q : Req) : String :=
 /-- The standard label `f"{func}({col})"`. -/
 def stdLabel : List LabelPart := [.func, .lit "(", .col, .lit ")"]
 
+/-- The cell of a result row for the aggregate `v`. -/
+def applyCell : CellExpr → AVal → AVal
+  | .get, v => v
+  | .getOrNone, v => if v.falsy then .none else v
+  | .getOrLit i, v => if v.falsy then .int i else v
+
 /-- One call's result as the caller sees it: (column names, rows) or the class of the exception. -/
 def render (P : Program) (keyCols : List String) : Op → OutC (List PyVal) →
     Except String (List String × List (List PyVal))
@@ -368,7 +419,8 @@ def render (P : Program) (keyCols : List String) : Op → OutC (List PyVal) →
     | _ =>
       if t.isEmpty then
         (if P.aggEmptyHeader then .ok (header keyCols reqs, []) else .error "StopIteration")
-      else .ok (header keyCols reqs, t.map fun ka => resultRow keyCols reqs ka.1 (ka.2.map AVal.toAgg))
+      else .ok (header keyCols reqs,
+                t.map fun ka => resultRow keyCols reqs ka.1 (ka.2.map fun v => (applyCell P.cell v).toAgg))
   | .groups, .keys ks =>
     if ks.isEmpty then
       (if P.groupsEmptyHeader then .ok ((dictOf (keyCols.map fun c => (c, ()))).map (·.1), [])
